@@ -15,6 +15,13 @@ def resolve_entries(prog, patterns):
     return sorted(set(out))
 
 
+# workspace iterators reviewed as finite (a loop driven by their `next` that leaves on None terminates)
+REVIEWED_FINITE_ITERS = {
+    "libtw2_net::protocol::ChunksIter": "every Some replaces self.data by a strictly shorter suffix (the chunk header is at least 2 bytes); "
+                                        "an empty slice or a malformed chunk yields None (loops inside it: C06 R2)",
+    "libtw2_net::protocol7::ChunksIter": "as in 0.6: every Some consumes at least the 2-byte chunk header of self.data",
+}
+
 STD_FINITE_ITERS = (
     "std::slice::iter::Iter", "std::slice::Iter", "std::slice::iter::IterMut", "std::slice::IterMut",
     "std::ops::Range", "std::ops::range::Range", "std::ops::RangeInclusive", "std::ops::range::RangeInclusive",
@@ -91,8 +98,20 @@ def totality(ctx, rep, rule, entries, reviewed, exempt_fns=(), trusted_fns=(), s
     for k in sorted(reviewed, key=lambda x: (descriptor(x), int(x.rsplit(" | ", 1)[1]) if x.rsplit(" | ", 1)[1].isdigit() else 0)):
         if k not in used:
             spare.setdefault(descriptor(k), []).append(k)
+    def family(d):
+        # code moved between a function and its closures keeps its reviewed line
+        import re as _re
+        return _re.sub(r"::\{closure#\d+\}", "", d)
+    spare_fam = {}
+    for d, ks in spare.items():
+        spare_fam.setdefault(family(d), []).append(ks)
     for fid, site, key, at in pending:
         lst = spare.get(descriptor(key)) or []
+        if not lst:
+            for ks in spare_fam.get(family(descriptor(key)), []):
+                if ks:
+                    lst = ks
+                    break
         if lst:
             k2 = lst.pop(0)
             used.add(k2)
@@ -159,6 +178,10 @@ def loops(ctx, rep, rule, R, reviewed, finite_iters=()):
                 if std_impl:
                     ok = True
                     why = "driven by %s, leaves on None" % raw
+                    break
+                if any(self_ty.startswith(p) for p in REVIEWED_FINITE_ITERS):
+                    ok = True
+                    why = "driven by %s::next (reviewed: %s), leaves on None" % (self_ty, [r for p, r in REVIEWED_FINITE_ITERS.items() if self_ty.startswith(p)][0])
                     break
                 if any(self_ty.startswith(p) for p in STD_FINITE_ITERS) or any(self_ty.startswith(p) for p in finite_iters):
                     ok = True
